@@ -220,7 +220,11 @@ class Rank:
             if self._attrs.getShape() == 0:
                 #
                 # We do not actually know the shape, but we can estimate it
+                # (a rank without fibers has nothing to estimate it from)
                 #
+                if len(self.fibers) == 0:
+                    return 0
+
                 return Fiber._maxComponents([f.estimateShape(all_ranks=False) for f in self.fibers])
 
             return self._attrs.getShape()
